@@ -686,7 +686,8 @@ fn classify(kind: &str, detail: &str, ops: &[Op], im: &Image, edges: &HashMap<u6
     };
     let edge_id = num_after("edge");
     let updated = |e: u64| ops.iter().any(|o| matches!(o, Op::UEdge { e: x, .. } if *x == e));
-    let node_deleted = |n: u64| ops.iter().any(|o| matches!(o, Op::DNode(x) if *x == n));
+    // `batch_delete_nodes` calls `delete_node` for each of its ids
+    let node_deleted = |n: u64| ops.iter().any(|o| matches!(o, Op::DNode(x) if *x == n) || matches!(o, Op::BDN(v) if v.contains(&n)));
     let endpoint_deleted = |e: u64| {
         let ends = im.edges.get(&e).map(|r| (r.src, r.dst)).or_else(|| edges.get(&e).map(|(a, b, _)| (*a, *b)));
         ends.map_or(false, |(a, b)| node_deleted(a) || node_deleted(b))
@@ -782,6 +783,75 @@ fn classify_fresh(kind: &str, detail: &str, ops: &[Op], im: &Image, edges: &Hash
         }
         _ => None,
     }
+}
+
+/// One read-modify-write of an adjacency list as the yield trace shows it: thread `t` performed
+/// `store.get K` (step `get`) and, as its NEXT store call, `store.put K` (step `put`), K a list key.
+/// (`create_node` only puts, `delete_node` reads its own two lists without writing them back: neither
+/// is a section.)
+#[derive(Clone, Debug)]
+struct RmwSection {
+    thread: usize,
+    key: String,
+    get: usize,
+    put: usize,
+}
+
+fn rmw_sections(trace: &[Step]) -> Vec<RmwSection> {
+    let mut out = Vec::new();
+    for (i, s) in trace.iter().enumerate() {
+        if s.site == "store.get" && is_list_key(&s.key) {
+            if let Some((j, nx)) = trace.iter().enumerate().skip(i + 1).find(|(_, x)| x.thread == s.thread && x.site != "thread.start") {
+                if nx.site == "store.put" && nx.key == s.key {
+                    out.push(RmwSection { thread: s.thread, key: s.key.clone(), get: i, put: j });
+                }
+            }
+        }
+    }
+    out
+}
+
+/// Pairs of sections of DIFFERENT threads on the SAME list whose step intervals intersect: the second
+/// thread read or wrote the list between the first one's read and write.  With the list lock
+/// (`edge_list_lock`, taken before the `store.get` and dropped after the `store.put`) there is none
+/// (Lean: `list_rmw_sections_exclusive`, for every operation that writes lists).
+fn rmw_overlaps(trace: &[Step]) -> Vec<(RmwSection, RmwSection)> {
+    let secs = rmw_sections(trace);
+    let mut out = Vec::new();
+    for (i, a) in secs.iter().enumerate() {
+        for b in secs.iter().skip(i + 1) {
+            if a.thread != b.thread && a.key == b.key && a.get < b.put && b.get < a.put {
+                out.push((a.clone(), b.clone()));
+            }
+        }
+    }
+    out
+}
+
+/// list keys a broken WF clause is about
+fn break_keys(kind: &str, detail: &str) -> Vec<String> {
+    match kind {
+        "edge_not_listed" => detail.split("missing from ").nth(1).map_or(Vec::new(), |l| l.split(',').map(|x| x.trim().to_string()).collect()),
+        "dangling_entry" | "entry_wrong_node" | "duplicate_entry" => detail.split_whitespace().next().map(|k| k.to_string()).into_iter().collect(),
+        _ => Vec::new(),
+    }
+}
+
+/// Regression oracle of the list lock, every concurrent stream, evaluated BEFORE a break is attributed to
+/// a known finding: the broken clause is about list K and the yield trace shows two threads inside a
+/// read-modify-write of K at the same time.  The class names the mechanism (the mutual exclusion of the
+/// list updates), whatever operations the two threads were running.
+fn classify_overlap(kind: &str, detail: &str, overlaps: &[(RmwSection, RmwSection)]) -> Option<(String, String)> {
+    let keys = break_keys(kind, detail);
+    overlaps.iter().find(|(a, _)| keys.contains(&a.key)).map(|(a, b)| {
+        (
+            "graph_engine.edge_list_lock/list_update_not_exclusive".to_string(),
+            format!(
+                "thread {} read {} at step {} and wrote it at step {}; thread {} read it at step {} and wrote it at step {}",
+                a.thread, a.key, a.get, a.put, b.thread, b.get, b.put
+            ),
+        )
+    })
 }
 
 struct SeqFail {
@@ -1032,6 +1102,11 @@ enum Sched<'a> {
     Prefer(&'a [usize]),
     /// seeded random choice among the threads that would not run into a held list lock
     Random,
+    /// like `Random`, but every third time a thread is about to take a list lock that another parked
+    /// thread holds (LockMirror), grant exactly that thread: on code that takes the stripe lock it waits
+    /// (one stall timeout, the holder is granted next); on code whose read-modify-write of the list is
+    /// NOT under the lock it runs into the holder's critical section
+    Probe,
 }
 
 fn is_list_key(k: &str) -> bool {
@@ -1080,6 +1155,13 @@ impl LockMirror {
             if let (Some(Op::CEdge { a, b, d, .. }), Ok(e)) = (self.ops[t].get(self.op_no[t]), key[5..].parse::<u64>()) {
                 self.edges.insert(e, (*a, *b, *d));
             }
+            // item j of a batch_create_edges: j = number of edge records this call has stored so far
+            if let (Some(Op::BCE(items)), Ok(e)) = (self.ops[t].get(self.op_no[t]), key[5..].parse::<u64>()) {
+                let j = self.hist[t][self.op_start[t]..].iter().filter(|(s, k)| s == "store.put" && k.starts_with("edge:")).count();
+                if let Some((a, b, d, _, _)) = items.get(j) {
+                    self.edges.insert(e, (*a, *b, *d));
+                }
+            }
         }
         self.hist[t].push((site.to_string(), key.to_string()));
     }
@@ -1116,6 +1198,60 @@ impl LockMirror {
     fn locks(&self, t: usize, site: &str, key: &str) -> (Option<String>, Vec<usize>) {
         let Some(op) = self.ops[t].get(self.op_no[t]) else { return (None, Vec::new()) };
         let steps = &self.hist[t][self.op_start[t]..];
+        let id_of = |k: &str, prefix: &str| k.strip_prefix(prefix).and_then(|x| x.parse::<u64>().ok());
+        let plain_node = |k: &str| k.starts_with("node:") && !is_list_key(k);
+        // A batch call is the sequence of its items' single operations (create_edge_internal /
+        // create_node_internal after the validation phase, delete_edge, delete_node, update_node): find
+        // the item the thread is in from the store calls the call has made, then the single-operation rule.
+        match op {
+            Op::BCE(items) => {
+                let puts: Vec<usize> = steps.iter().enumerate().filter(|(_, (s, k))| s == "store.put" && k.starts_with("edge:")).map(|(i, _)| i).collect();
+                let (j, sub): (usize, &[(String, String)]) = if site == "store.put" && key.starts_with("edge:") {
+                    (puts.len(), &[])
+                } else if let Some(p) = puts.last() {
+                    (puts.len() - 1, &steps[*p..])
+                } else {
+                    return (None, Vec::new()); // validation phase: node_exists calls only
+                };
+                match items.get(j) {
+                    Some((a, b, d, ty, v)) => self.locks_single(&Op::CEdge { a: *a, b: *b, d: *d, ty: *ty, v: *v }, sub, site, key),
+                    None => (None, Vec::new()),
+                }
+            }
+            Op::BCN(_) => self.locks_single(&Op::CNode { l: 0, v: 0 }, steps, site, key),
+            Op::BDE(_) => {
+                if site == "store.get" && key.starts_with("edge:") {
+                    return match id_of(key, "edge:") {
+                        Some(e) => self.locks_single(&Op::DEdge(e), &[], site, key),
+                        None => (None, Vec::new()),
+                    };
+                }
+                match steps.iter().rposition(|(s, k)| s == "store.get" && k.starts_with("edge:")) {
+                    Some(p) => match id_of(&steps[p].1, "edge:") {
+                        Some(e) => self.locks_single(&Op::DEdge(e), &steps[p..], site, key),
+                        None => (None, Vec::new()),
+                    },
+                    None => (None, Vec::new()),
+                }
+            }
+            Op::BDN(_) => {
+                if site == "store.get" && plain_node(key) {
+                    return (None, Vec::new()); // get_node of the next item
+                }
+                match steps.iter().rposition(|(s, k)| s == "store.get" && plain_node(k)) {
+                    Some(p) => match id_of(&steps[p].1, "node:") {
+                        Some(n) => self.locks_single(&Op::DNode(n), &steps[p..], site, key),
+                        None => (None, Vec::new()),
+                    },
+                    None => (None, Vec::new()),
+                }
+            }
+            Op::BUN(_) => (None, id_of(key, "node:").map(|n| (n % 64) as usize).into_iter().collect()),
+            _ => self.locks_single(op, steps, site, key),
+        }
+    }
+    /// the rule for one single operation `op` that has made the store calls `steps` so far
+    fn locks_single(&self, op: &Op, steps: &[(String, String)], site: &str, key: &str) -> (Option<String>, Vec<usize>) {
         let list_gets = |from: usize| steps[from..].iter().filter(|(s, k)| s == "store.get" && is_list_key(k)).count();
         let at_list = is_list_key(key) && (site == "store.get" || site == "store.put");
         let id_of = |k: &str, prefix: &str| k.strip_prefix(prefix).and_then(|x| x.parse::<u64>().ok());
@@ -1187,7 +1323,8 @@ impl LockMirror {
             Op::UNode { n, .. } => (None, vec![idx(*n)]),
             Op::UEdge { e, .. } => (None, vec![idx(*e)]),
             Op::ALabel { n, .. } | Op::RLabel { n, .. } => (None, vec![idx(*n)]),
-            // batch operations and re-opening are not run under the scheduler
+            // batch operations are resolved to their current item by `locks`; re-opening is not run
+            // under the scheduler
             _ => (None, Vec::new()),
         }
     }
@@ -1262,7 +1399,8 @@ fn run_conc(g: Arc<GraphEngine>, threads: &[Vec<Op>], sched: Sched, edges: HashM
                     free.first().copied().unwrap_or(0)
                 }
             },
-            Sched::Random => {
+            Sched::Random | Sched::Probe => {
+                let probe_den = if matches!(sched, Sched::Probe) { 3 } else { 32 };
                 if free.len() < parked.len() && !free.is_empty() {
                     avoided += 1;
                 }
@@ -1272,7 +1410,7 @@ fn run_conc(g: Arc<GraphEngine>, threads: &[Vec<Op>], sched: Sched, edges: HashM
                 let w: Vec<usize> = (0..parked.len()).filter(|k| wb[*k] && !mirror.allocates_later(parked[*k].0)).collect();
                 if someone_waits {
                     holders[local.below(holders.len() as u64) as usize]
-                } else if free.len() < parked.len() && !w.is_empty() && local.chance(1, 32) {
+                } else if free.len() < parked.len() && !w.is_empty() && local.chance(1, probe_den) {
                     // now and then grant a thread that will wait: its store call then happens while the
                     // lock it wants next is held, an interleaving the steering would never produce
                     w[local.below(w.len() as u64) as usize]
@@ -1299,11 +1437,11 @@ fn run_conc(g: Arc<GraphEngine>, threads: &[Vec<Op>], sched: Sched, edges: HashM
 }
 
 /// per-thread: edge orders of the delete_node operations, read off the real yield trace
-fn dnode_hints(trace: &[Step], nthreads: usize) -> Vec<Vec<Vec<u64>>> {
-    let mut out = vec![Vec::new(); nthreads];
+fn dnode_hints(trace: &[Step], nthreads: usize) -> Vec<Vec<(u64, Vec<u64>)>> {
+    let mut out: Vec<Vec<(u64, Vec<u64>)>> = vec![Vec::new(); nthreads];
     for t in 0..nthreads {
         let steps: Vec<&Step> = trace.iter().filter(|s| s.thread == t && s.site != "thread.start").collect();
-        let mut cur: Option<Vec<u64>> = None;
+        let mut cur: Option<(u64, Vec<u64>)> = None;
         for (i, s) in steps.iter().enumerate() {
             // delete_node starts with get node:N, get node:N:out, get node:N:in (same N); no other
             // operation issues that triple
@@ -1318,8 +1456,8 @@ fn dnode_hints(trace: &[Step], nthreads: usize) -> Vec<Vec<Vec<u64>>> {
                 if let Some(c) = cur.take() {
                     out[t].push(c);
                 }
-                cur = Some(Vec::new());
-            } else if let Some(c) = cur.as_mut() {
+                cur = Some((steps[i - 2].key[5..].parse::<u64>().unwrap_or(0), Vec::new()));
+            } else if let Some((_, c)) = cur.as_mut() {
                 if s.site == "store.get" && s.key.starts_with("edge:") {
                     if let Ok(e) = s.key[5..].parse::<u64>() {
                         if !c.contains(&e) {
@@ -1350,10 +1488,26 @@ fn model_run_line(threads: &[Vec<Op>], oc: &ConcOutcome) -> String {
                 // a delete_node that answered node_not_found never read its lists: no hint segment
                 let found = oc.results[t].get(j).map_or(true, |r| !r.starts_with("err node_not_found"));
                 if found {
-                    ts.push(op.tok(hints[t].get(k).map_or(&[][..], |v| &v[..])));
+                    ts.push(op.tok(hints[t].get(k).map_or(&[][..], |v| &v.1[..])));
                     k += 1;
                     continue;
                 }
+            }
+            if let Op::BDN(ids) = op {
+                // every item is a delete_node: the items that passed get_node read their lists and have a
+                // hint segment (recognised by its node id, ids are not handed out twice during a run)
+                let its: Vec<String> = ids
+                    .iter()
+                    .map(|n| match hints[t].get(k) {
+                        Some((hn, h)) if hn == n => {
+                            k += 1;
+                            std::iter::once(n.to_string()).chain(h.iter().map(|x| x.to_string())).collect::<Vec<_>>().join(".")
+                        }
+                        _ => n.to_string(),
+                    })
+                    .collect();
+                ts.push(format!("bdn:{}", if its.is_empty() { "-".to_string() } else { its.join("/") }));
+                continue;
             }
             ts.push(op.tok(&[]));
         }
@@ -1378,6 +1532,9 @@ fn threads_json(setup: &[Op], threads: &[Vec<Op>], oc: &ConcOutcome) -> Value {
     })
 }
 
+/// store calls per thread in the last `conc_case` run (the directed cut-point loops size themselves by it)
+static LAST_STEPS: Mutex<Vec<usize>> = Mutex::new(Vec::new());
+
 /// One concurrent scenario: setup sequentially (mirrored to the model), run the threads, compare
 /// with the model under the same schedule, evaluate the WF monitor at quiescence.
 /// Returns the classes of the WF breaks found.
@@ -1393,6 +1550,7 @@ fn conc_case(
     per_class: &mut BTreeMap<String, u32>,
     expect_class: Option<&str>,
     fresh: Option<(u64, u64)>,
+    mut defer: Option<&mut Vec<(String, String, Value)>>,
 ) -> Vec<String> {
     let g = Arc::new(new_engine());
     m.ask("reset");
@@ -1409,6 +1567,9 @@ fn conc_case(
     let nn0 = image_of(&g).nodes.keys().copied().max().unwrap_or(0);
     let (oc, followed, avoided, edges) = run_conc(g.clone(), threads, sched, edges, rng);
     let all_ops: Vec<Op> = threads.iter().flatten().cloned().collect();
+    if let Ok(mut ls) = LAST_STEPS.lock() {
+        *ls = (0..threads.len()).map(|t| oc.trace.iter().filter(|s| s.thread == t).count()).collect();
+    }
     if let Sched::Exact(script) = sched {
         let actual: Vec<usize> = oc.trace.iter().map(|s| s.thread).collect();
         let ok = followed && actual[..] == *script;
@@ -1498,7 +1659,39 @@ fn conc_case(
     }
     // ---- oracle: WF at quiescence
     let mut classes = Vec::new();
+    let overlaps = rmw_overlaps(&oc.trace);
+    if !overlaps.is_empty() {
+        rep.hit_n("conc.list_rmw_sections_of_two_threads_overlap", overlaps.len() as u64);
+        if breaks.is_empty() {
+            // the mechanism failed without a visible consequence at quiescence (both updates were no-ops,
+            // or a later operation removed the evidence): outside the property as stated, recorded
+            let mut j = threads_json(setup, threads, &oc);
+            j["stream"] = json!(stream);
+            j["what"] = json!(format!("two threads inside a read-modify-write of {} at the same time, store well-formed at quiescence", overlaps[0].0.key));
+            rep.observe(j);
+        }
+    }
+    let mut emit = |rep: &mut Report, class: &str, what: &str, j: Value| match &mut defer {
+        Some(sink) => sink.push((class.to_string(), what.to_string(), j)),
+        None => rep.violation(class, what, j),
+    };
     for (kind, detail) in &breaks {
+        // regression oracle of the list lock (/repo 81b9c5b4), every stream, before any attribution to a
+        // known finding: the broken clause is about a list that two threads updated at the same time
+        if let Some((c, how)) = classify_overlap(kind, detail, &overlaps) {
+            if !classes.contains(&c) {
+                classes.push(c.clone());
+                let n = per_class.entry(c.clone()).or_insert(0);
+                *n += 1;
+                rep.hit(&format!("wf_break.{c}"));
+                if *n <= 2 {
+                    let mut j = threads_json(setup, threads, &oc);
+                    j["stream"] = json!(stream);
+                    emit(rep, &c, &format!("graph not well-formed at quiescence: {kind}: {detail} ({how}: the two list updates were not mutually exclusive)"), j);
+                }
+            }
+            continue;
+        }
         // regression oracle of /repo e23bf6c3, every stream: a node created during the phase whose lists
         // its creator wrote after the record
         if let Some(c) = classify_late_lists(kind, detail, &oc.trace, &oc.image, &edges, nn0) {
@@ -1510,7 +1703,7 @@ fn conc_case(
                 if *n <= 2 {
                     let mut j = threads_json(setup, threads, &oc);
                     j["stream"] = json!(stream);
-                    rep.violation(&c, &format!("graph not well-formed at quiescence: {kind}: {detail} (the creator of the node wrote the node's list after the node record)"), j);
+                    emit(rep, &c, &format!("graph not well-formed at quiescence: {kind}: {detail} (the creator of the node wrote the node's list after the node record)"), j);
                 }
             }
             continue;
@@ -1542,7 +1735,7 @@ fn conc_case(
             if *n <= 2 {
                 let mut j = threads_json(setup, threads, &oc);
                 j["stream"] = json!(stream);
-                rep.violation(&c, &format!("graph not well-formed at quiescence: {kind}: {detail}"), j);
+                emit(rep, &c, &format!("graph not well-formed at quiescence: {kind}: {detail}"), j);
             }
         }
     }
@@ -1680,6 +1873,165 @@ fn gen_disjoint(r: &mut Rng) -> (Vec<Op>, Vec<Vec<Op>>) {
     (setup, threads)
 }
 
+/// A batch call on the hub (node 1) against single writers and other batch calls that update the same
+/// adjacency lists: `batch_create_edges` / `batch_delete_edges` / `batch_delete_nodes` in thread 0,
+/// `create_edge` / `delete_edge` / `delete_node` (of a neighbour: it cleans the hub's lists; now and then of
+/// the hub itself) and further batch calls in the others.  Edge ids named by deletes exist before the phase.
+fn gen_batch_hub(r: &mut Rng) -> (Vec<Op>, Vec<Vec<Op>>) {
+    let nn = 3 + r.below(2);
+    let mut setup: Vec<Op> = (0..nn).map(|_| Op::CNode { l: r.below(2), v: 0 }).collect();
+    let ne = 2 + r.below(3);
+    for _ in 0..ne {
+        let other = 2 + r.below(nn - 1);
+        let (a, b) = if r.chance(1, 2) { (1, other) } else { (other, 1) };
+        setup.push(Op::CEdge { a, b, d: r.chance(2, 3), ty: r.below(2), v: 0 });
+    }
+    let hubby = |r: &mut Rng| -> (u64, u64) {
+        let other = if r.chance(1, 8) { 1 } else { 2 + r.below(nn - 1) };
+        if r.chance(3, 4) {
+            if r.chance(1, 2) { (1, other) } else { (other, 1) }
+        } else {
+            (other, 2 + r.below(nn - 1))
+        }
+    };
+    let bce = |r: &mut Rng| -> Op {
+        Op::BCE(
+            (0..1 + r.below(3))
+                .map(|_| {
+                    let (a, b) = hubby(r);
+                    (a, b, r.chance(2, 3), r.below(2), 1)
+                })
+                .collect(),
+        )
+    };
+    let nt = 2 + r.below(3) as usize; // 2..=4
+    let threads = (0..nt)
+        .map(|t| {
+            let k = if r.chance(1, 4) { 2 } else { 1 };
+            (0..k)
+                .map(|_| {
+                    let w = r.below(100);
+                    if t == 0 {
+                        if w < 70 {
+                            bce(r)
+                        } else if w < 88 {
+                            Op::BDE((0..1 + r.below(2)).map(|_| 1 + r.below(ne)).collect())
+                        } else if w < 95 {
+                            Op::BDN(vec![2 + r.below(nn - 1)])
+                        } else {
+                            Op::BCN((0..1 + r.below(2)).map(|_| (1, 1)).collect())
+                        }
+                    } else if w < 38 {
+                        let (a, b) = hubby(r);
+                        Op::CEdge { a, b, d: r.chance(2, 3), ty: r.below(2), v: 1 }
+                    } else if w < 60 {
+                        Op::DEdge(1 + r.below(ne))
+                    } else if w < 74 {
+                        Op::DNode(2 + r.below(nn - 1))
+                    } else if w < 78 {
+                        Op::DNode(1)
+                    } else if w < 90 {
+                        bce(r)
+                    } else if w < 96 {
+                        Op::BDE((0..1 + r.below(2)).map(|_| 1 + r.below(ne)).collect())
+                    } else {
+                        Op::BDN(vec![2 + r.below(nn - 1)])
+                    }
+                })
+                .collect()
+        })
+        .collect();
+    (setup, threads)
+}
+
+/// Shrink a failing concurrent scenario of class `class`: drop one operation of a thread (a thread left
+/// without operations is dropped while two remain), one item of a batch call, the last setup edge; a
+/// candidate is kept when one of `tries` seeded probing schedules reproduces the class.  Returns the
+/// smallest scenario found with the violation it produced.
+fn shrink_conc(stream: &str, setup: &[Op], threads: &[Vec<Op>], class: &str, first: (String, String, Value), m: &mut Model, rng: &Rng, tries: u64) -> (String, String, Value) {
+    let mut best = first;
+    let mut setup = setup.to_vec();
+    let mut threads = threads.to_vec();
+    let mut round = 0u64;
+    let mut runs = 0u64;
+    loop {
+        let mut cands: Vec<(Vec<Op>, Vec<Vec<Op>>)> = Vec::new();
+        for t in 0..threads.len() {
+            for i in 0..threads[t].len() {
+                let mut th = threads.clone();
+                th[t].remove(i);
+                if th[t].is_empty() && th.len() > 2 {
+                    th.remove(t);
+                }
+                if th.iter().filter(|x| !x.is_empty()).count() >= 2 {
+                    cands.push((setup.clone(), th));
+                }
+                // one item less in a batch call
+                let n_items = match &threads[t][i] {
+                    Op::BCE(v) => v.len(),
+                    Op::BDE(v) => v.len(),
+                    Op::BDN(v) => v.len(),
+                    Op::BCN(v) => v.len(),
+                    _ => 0,
+                };
+                for j in 0..n_items {
+                    if n_items < 2 {
+                        break;
+                    }
+                    let mut th = threads.clone();
+                    match &mut th[t][i] {
+                        Op::BCE(v) => {
+                            v.remove(j);
+                        }
+                        Op::BDE(v) => {
+                            v.remove(j);
+                        }
+                        Op::BDN(v) => {
+                            v.remove(j);
+                        }
+                        Op::BCN(v) => {
+                            v.remove(j);
+                        }
+                        _ => {}
+                    }
+                    cands.push((setup.clone(), th));
+                }
+            }
+        }
+        if matches!(setup.last(), Some(Op::CEdge { .. })) {
+            let mut su = setup.clone();
+            su.pop();
+            cands.push((su, threads.clone()));
+        }
+        let mut progressed = false;
+        'cands: for (su, th) in cands {
+            for k in 0..tries {
+                if runs > 600 {
+                    break 'cands;
+                }
+                runs += 1;
+                let mut scratch = Report::new("");
+                let mut sink = Vec::new();
+                let mut none = BTreeMap::new();
+                let mut rr = rng.fork(&format!("shrink.{round}.{k}"));
+                conc_case(stream, &su, &th, Sched::Probe, m, &mut scratch, &mut rr, &mut none, None, None, Some(&mut sink));
+                if let Some(v) = sink.into_iter().find(|(c, _, _)| c == class) {
+                    best = v;
+                    setup = su;
+                    threads = th;
+                    progressed = true;
+                    break 'cands;
+                }
+            }
+        }
+        round += 1;
+        if !progressed || runs > 600 {
+            break;
+        }
+    }
+    best
+}
+
 // ------------------------------------------------------------------ main
 
 fn main() {
@@ -1734,7 +2086,7 @@ fn main() {
             ),
         ];
         for (name, threads, sc) in &cases {
-            let classes = conc_case(name, &n2, threads, Sched::Prefer(sc), &mut m, &mut rep, &mut wr, &mut per_class, None, None);
+            let classes = conc_case(name, &n2, threads, Sched::Prefer(sc), &mut m, &mut rep, &mut wr, &mut per_class, None, None, None);
             for c in &classes {
                 rep.hit(&format!("regress.broken.{c}"));
             }
@@ -1748,7 +2100,7 @@ fn main() {
             for und in [false, true] {
                 let sc: Vec<usize> = std::iter::repeat(0).take(1 + k).chain(std::iter::repeat(1).take(14)).collect();
                 let threads = vec![vec![cn.clone()], vec![Op::CEdge { a: 1, b: 3, d: !und, ty: 0, v: 0 }]];
-                let classes = conc_case("regress.create_node_vs_create_edge.cut", &n2, &threads, Sched::Prefer(&sc), &mut m, &mut rep, &mut wr, &mut per_class, None, None);
+                let classes = conc_case("regress.create_node_vs_create_edge.cut", &n2, &threads, Sched::Prefer(&sc), &mut m, &mut rep, &mut wr, &mut per_class, None, None, None);
                 for c in &classes {
                     rep.hit(&format!("regress.broken.{c}"));
                 }
@@ -1757,6 +2109,58 @@ fn main() {
         }
     }
     lap("directed create_node regression done");
+    // ---------------- (0-a') a batch call against a writer of the SAME adjacency list, every cut point:
+    // thread 0 is granted k store calls, thread 1 then runs as far as it can (to completion, or to the
+    // list lock thread 0 holds: it waits, thread 0 goes on), then the rest; k = 0 .. all of thread 0's
+    // calls, both role orders.  The cut between the `store.get` and the `store.put` of a shared list is the
+    // minimal history in which the list lock taken by the BATCH path (create_edge_internal, and the
+    // delete_edge / delete_node calls inside batch_delete_*) is the only thing that keeps the other
+    // thread's update of that list from being overwritten.  Any WF break is a violation, except those the
+    // known node-deletion race explains (pair `…_vs_delete_node_of_the_hub`, counted only).
+    {
+        let cn = Op::CNode { l: 0, v: 0 };
+        let n3 = vec![cn.clone(), cn.clone(), cn.clone()];
+        let n2e = vec![cn.clone(), cn.clone(), e12.clone()];
+        let n2ee = vec![cn.clone(), cn.clone(), e12.clone(), e12.clone()];
+        let mut n3e = n3.clone();
+        n3e.push(Op::CEdge { a: 3, b: 1, d: true, ty: 0, v: 0 });
+        let mut n3u = n3.clone();
+        n3u.push(Op::CEdge { a: 3, b: 1, d: false, ty: 0, v: 0 });
+        let pairs: Vec<(&str, &Vec<Op>, Vec<Op>, Vec<Op>)> = vec![
+            ("batch_create_edges_vs_create_edge", &n2, vec![Op::BCE(vec![(1, 2, true, 0, 0)])], vec![e12.clone()]),
+            ("batch_create_edges_vs_delete_edge", &n2e, vec![Op::BCE(vec![(1, 2, true, 0, 1)])], vec![Op::DEdge(1)]),
+            ("batch_create_edges_vs_delete_node_of_a_neighbour", &n3e, vec![Op::BCE(vec![(2, 1, true, 0, 1)])], vec![Op::DNode(3)]),
+            ("batch_create_edges_vs_batch_create_edges", &n2, vec![Op::BCE(vec![(1, 2, false, 0, 0)])], vec![Op::BCE(vec![(2, 1, true, 0, 1), (1, 1, true, 1, 1)])]),
+            ("batch_delete_edges_vs_batch_create_edges", &n2ee, vec![Op::BDE(vec![1, 2])], vec![Op::BCE(vec![(1, 2, true, 0, 1)])]),
+            ("batch_delete_nodes_vs_batch_create_edges", &n3u, vec![Op::BDN(vec![3])], vec![Op::BCE(vec![(2, 1, false, 0, 1)])]),
+            ("batch_create_edges_second_item_vs_delete_edge", &n2e, vec![Op::BCE(vec![(2, 2, true, 0, 0), (1, 2, false, 0, 0)])], vec![Op::DEdge(1)]),
+            ("batch_create_edges_vs_delete_node_of_the_hub", &n2e, vec![Op::BCE(vec![(1, 2, true, 0, 1)])], vec![Op::DNode(1)]),
+        ];
+        for (name, setup, x, y) in &pairs {
+            for (first, second, role) in [(x, y, "batch_first"), (y, x, "batch_second")] {
+                let stream = format!("regress.batch_vs_writer.{name}");
+                let threads = vec![first.clone(), second.clone()];
+                let mut k = 0usize;
+                loop {
+                    let sc: Vec<usize> = std::iter::repeat(0).take(k).chain(std::iter::repeat(1).take(200)).collect();
+                    let classes = conc_case(&stream, setup, &threads, Sched::Prefer(&sc), &mut m, &mut rep, &mut wr, &mut per_class, None, None, None);
+                    for c in &classes {
+                        rep.hit(&format!("regress.batch_vs_writer.broken.{c}"));
+                    }
+                    if classes.is_empty() {
+                        rep.hit("regress.batch_vs_writer.well_formed");
+                    }
+                    rep.hit(&format!("regress.batch_vs_writer.{role}"));
+                    let n0 = LAST_STEPS.lock().map(|v| v.first().copied().unwrap_or(0)).unwrap_or(0);
+                    k += 1;
+                    if k > n0 || k > 60 {
+                        break;
+                    }
+                }
+            }
+        }
+    }
+    lap("directed batch-vs-writer cuts done");
     // ---------------- (0-b) Lean witness schedules replayed on the real engine (the two KNOWN races,
     //                  on every run), then the schedules of the three races fixed by the list lock
     // Props.create_edge_delete_node_race_witness
@@ -1768,6 +2172,7 @@ fn main() {
         &mut m, &mut rep, &mut wr, &mut per_class,
         Some("graph_engine.create_edge/edge_to_deleted_node"),
         None,
+        None,
     );
     // Props.update_edge_delete_edge_race_witness
     let n2e = vec![n2[0].clone(), n2[1].clone(), e12.clone()];
@@ -1778,6 +2183,7 @@ fn main() {
         Sched::Exact(&[0, 0, 0, 1, 1, 1, 1, 1, 1, 1, 0]),
         &mut m, &mut rep, &mut wr, &mut per_class,
         Some("graph_engine.update_edge/resurrects_deleted_edge"),
+        None,
         None,
     );
     // regression: Props.rmw_lost_update_witness / rmw_lost_removal_witness are schedules of the code
@@ -1796,7 +2202,7 @@ fn main() {
     ];
     for (name, setup, threads, sc) in &regress {
         let mut none = BTreeMap::new();
-        let classes = conc_case(name, setup, threads, Sched::Prefer(sc), &mut m, &mut rep, &mut wr, &mut none, None, None);
+        let classes = conc_case(name, setup, threads, Sched::Prefer(sc), &mut m, &mut rep, &mut wr, &mut none, None, None, None);
         for c in classes {
             rep.hit(&format!("regress.broken.{c}"));
         }
@@ -1927,15 +2333,36 @@ fn main() {
     let mut r = root.fork("conc.fresh_ids");
     for _ in 0..60 * scale {
         let (setup, threads, nn0, ne0) = gen_fresh(&mut r);
-        conc_case("conc.fresh_ids", &setup, &threads, Sched::Random, &mut m, &mut rep, &mut r, &mut cand, None, Some((nn0, ne0)));
+        conc_case("conc.fresh_ids", &setup, &threads, Sched::Random, &mut m, &mut rep, &mut r, &mut cand, None, Some((nn0, ne0)), None);
     }
     lap("witness/regress/fresh done");
+    // ---------------- (ii-a'') a batch call on a hub against single writers / other batch calls on the same
+    //                  lists, probing schedules (a thread about to take a held list lock is granted every
+    //                  third time); a violation is shrunk before it is reported
+    let mut r = root.fork("conc.batch_hub");
+    let shrink_rng = root.fork("conc.batch_hub.shrink");
+    let mut hub_classes: BTreeMap<String, u32> = BTreeMap::new();
+    for _ in 0..70 * scale {
+        let (setup, threads) = gen_batch_hub(&mut r);
+        let mut sink = Vec::new();
+        conc_case("conc.batch_hub", &setup, &threads, Sched::Probe, &mut m, &mut rep, &mut r, &mut hub_classes, None, None, Some(&mut sink));
+        for (class, what, j) in sink {
+            let known = class == "graph_engine.create_edge/edge_to_deleted_node" || class == "graph_engine.update_edge/resurrects_deleted_edge";
+            if known {
+                rep.violation(&class, &what, j);
+            } else {
+                let (c, w, j) = shrink_conc("conc.batch_hub", &setup, &threads, &class, (class.clone(), what, j), &mut m, &shrink_rng, 10);
+                rep.violation(&c, &w, j);
+            }
+        }
+    }
+    lap("conc.batch_hub done");
     // ---------------- (ii-b) disjoint footprints: the regime of `quiescent_wf_partial`
     let mut r = root.fork("conc.disjoint");
     for _ in 0..150 * scale {
         let (setup, threads) = gen_disjoint(&mut r);
         let mut none = BTreeMap::new();
-        let classes = conc_case("conc.disjoint", &setup, &threads, Sched::Random, &mut m, &mut rep, &mut r, &mut none, None, None);
+        let classes = conc_case("conc.disjoint", &setup, &threads, Sched::Random, &mut m, &mut rep, &mut r, &mut none, None, None, None);
         for c in classes {
             rep.violation("graph_engine.disjoint_footprints/breaks_wf", &format!("WF broken although the operations touch disjoint keys ({c})"), json!({"setup": ops_json(&setup)}));
         }
@@ -1946,7 +2373,7 @@ fn main() {
     let mut r = root.fork("conc.random");
     for i in 0..600 * scale {
         let (setup, threads) = gen_conc(&mut r);
-        conc_case("conc.random", &setup, &threads, Sched::Random, &mut m, &mut rep, &mut r, &mut per_class, None, None);
+        conc_case("conc.random", &setup, &threads, Sched::Random, &mut m, &mut rep, &mut r, &mut per_class, None, None, None);
         if i < 2 {
             rep.sample(json!({"stream": "conc.random", "setup": ops_json(&setup), "threads": threads.iter().map(|t| ops_json(t)).collect::<Vec<_>>()}));
         }
